@@ -600,51 +600,55 @@ def loop_edges(A):
     return out
 
 
+def bundles(A):
+    """What RegexAmb receives: B[q][c] = {target: m}, m = min(2, number of parallel loop edges q -c-> target)."""
+    B = []
+    for row in loop_edges(A):
+        d = {}
+        for (c, t, _i) in row:
+            dd = d.setdefault(c, {})
+            dd[t] = min(2, dd.get(t, 0) + 1)
+        B.append(d)
+    return B
+
+
 # ---------------------------------------------------------------------------
 # Python reference of RegexAmb's product search (same state space as TLC explores)
 # ---------------------------------------------------------------------------
 
-def product_search(A, stop_at_first=False):
+def product_search(A):
     """For every anchor: breadth-first search of (p1, p2, diverged) from (a, a, FALSE) over pairs of edges
-    with the same class.  Returns (witnesses, distinct) with witnesses = {anchor: [classes of the pump]}
-    and distinct = number of distinct (a, p1, p2, dv) states over the anchors *without* an EDA (what TLC
-    reports for a clean automaton)."""
-    E = loop_edges(A)
-    by = []
-    for q in range(A.nstates):
-        d = {}
-        for (c, t, i) in E[q]:
-            d.setdefault(c, []).append((t, i))
-        by.append(d)
+    with the same class, exactly RegexAmb!Step.  Returns (witnesses, distinct, total): witnesses =
+    {anchor: [classes of the pump]}; distinct = number of distinct (a, p1, p2, dv) states over the anchors
+    without an EDA (= TLC's count for a clean automaton); total = the same over all anchors, exploring past
+    the violating states as `tlc -continue` does."""
+    B = bundles(A)
     wit = {}
     distinct = 0
+    total = 0
     for a in A.anchors:
         start = (a, a, False)
         seen = {start: None}
         dq = deque([start])
         found = None
-        while dq and found is None:
+        while dq:
             cur = dq.popleft()
             p1, p2, dv = cur
-            d2 = by[p2]
-            for c, l1 in sorted(by[p1].items()):
+            d2 = B[p2]
+            for c in sorted(B[p1]):
                 l2 = d2.get(c)
                 if not l2:
                     continue
-                for (t1, i1) in l1:
-                    for (t2, i2) in l2:
-                        nd = dv or i1 != i2
+                for t1, m1 in sorted(B[p1][c].items()):
+                    for t2 in sorted(l2):
+                        nd = dv or t1 != t2 or m1 == 2
                         s = (t1, t2, nd)
                         if s not in seen:
                             seen[s] = (cur, c)
                             dq.append(s)
-                            if t1 == a and t2 == a and nd:
+                            if found is None and t1 == a and t2 == a and nd:
                                 found = s
-                                break
-                    if found:
-                        break
-                if found:
-                    break
+        total += len(seen)
         if found is not None:
             w = []
             x = found
@@ -652,17 +656,14 @@ def product_search(A, stop_at_first=False):
                 w.append(seen[x][1])
                 x = seen[x][0]
             wit[a] = w[::-1]
-            if stop_at_first:
-                break
         else:
             distinct += len(seen)
-    return wit, distinct
+    return wit, distinct, total
 
 
 def check_pump(A, a, pump):
     """Independent re-validation of a witness: two different edge sequences a -pump-> a."""
     E = loop_edges(A)
-    cur = {(a, ()): 1}
     paths = {a: set([()])}
     for c in pump:
         nxt = {}
@@ -709,35 +710,49 @@ def word(A, classes):
 # TLA+ side: generated MC module + cfg, and reading TLC's counterexamples back
 # ---------------------------------------------------------------------------
 
-def tla_module(A, modname, anchors=None):
-    """TLA+ module text defining the constants of RegexAmb for automaton A (states/classes 1-based)."""
-    E = loop_edges(A)
+def tla_module(autos, modname):
+    """TLA+ module text instantiating RegexAmb with the disjoint union of the automata `autos`
+    (states and classes 1-based; automaton k occupies states offsets[k]+1 .. offsets[k]+N_k).
+    Returns (text, offsets).  The constants are *definitions* substituted through INSTANCE: TLC evaluates
+    such a definition once, whereas a cfg override `Out <- MC_Out` is re-evaluated at every use
+    (measured: 80 s against 2 s for the attribute token)."""
+    K = max([len(A.alphabet) for A in autos] + [1])
     rows = []
-    for q in range(A.nstates):
-        rows.append('{' + ', '.join('<<%d, %d, %d>>' % (c + 1, t + 1, i) for (c, t, i) in E[q]) + '}')
-    anchors = A.anchors if anchors is None else anchors
+    anchors = []
+    offsets = []
+    off = 0
+    for A in autos:
+        offsets.append(off)
+        B = bundles(A)
+        for q in range(A.nstates):
+            cells = []
+            for c in range(K):
+                d = B[q].get(c)
+                cells.append('{' + ', '.join('<<%d, %d>>' % (off + t + 1, m) for t, m in sorted(d.items())) + '}'
+                             if d else '{}')
+            rows.append('<<' + ', '.join(cells) + '>>')
+        anchors += [off + a + 1 for a in A.anchors]
+        off += A.nstates
+    if not rows:
+        rows.append('<<' + ', '.join(['{}'] * K) + '>>')
+        off = 1
     lines = ['---- MODULE %s ----' % modname,
-             '\\* generated by harness/regex_nfa.py from the working tree: %s' % A.name.replace('\n', ' ')[:100],
-             'EXTENDS RegexAmb',
-             'MC_N == %d' % A.nstates,
-             'MC_K == %d' % len(A.alphabet),
-             'MC_M == %d' % A.nedges,
-             'MC_Anchors == {%s}' % ', '.join(str(a + 1) for a in anchors),
+             '\\* generated by harness/regex_nfa.py from the working tree: %d automata' % len(autos),
+             'EXTENDS Naturals',
+             'VARIABLES a, p1, p2, dv',
+             'MC_N == %d' % off,
+             'MC_K == %d' % K,
+             'MC_Anchors == {%s}' % ', '.join(str(a) for a in anchors),
              'MC_Out == <<', ',\n'.join(rows), '>>',
+             'INSTANCE RegexAmb WITH N <- MC_N, K <- MC_K, Out <- MC_Out, Anchors <- MC_Anchors',
              '====', '']
-    return '\n'.join(lines)
+    return '\n'.join(lines), offsets
 
 
-CFG = '''CONSTANTS
-  N <- MC_N
-  K <- MC_K
-  M <- MC_M
-  Anchors <- MC_Anchors
-  Out <- MC_Out
-INIT Init
+CFG = '''INIT Init
 NEXT Next
 INVARIANT TypeOK
-INVARIANT DetNoDiv
+INVARIANT SameUntilDiverged
 INVARIANT NoEDA
 CHECK_DEADLOCK FALSE
 '''
@@ -768,20 +783,18 @@ def parse_traces(stdout):
 
 def pump_from_trace(A, states):
     """Classes along a TLC counterexample (the spec does not store the consumed class: recover one that
-    explains each step, then re-validate the whole pump)."""
-    E = loop_edges(A)
+    explains each step; the caller re-validates the whole pump with check_pump)."""
+    B = bundles(A)
     pump = []
     for s, t in zip(states, states[1:]):
         p1, p2, q1, q2 = s['p1'] - 1, s['p2'] - 1, t['p1'] - 1, t['p2'] - 1
         found = None
-        for (c1, t1, i1) in E[p1]:
-            if t1 != q1:
+        for c in sorted(B[p1]):
+            m1 = B[p1][c].get(q1)
+            if m1 is None or q2 not in B[p2].get(c, {}):
                 continue
-            for (c2, t2, i2) in E[p2]:
-                if c2 == c1 and t2 == q2 and (s['dv'] or (i1 != i2) == t['dv']):
-                    found = c1
-                    break
-            if found is not None:
+            if (s['dv'] or q1 != q2 or m1 == 2) == t['dv']:
+                found = c
                 break
         if found is None:
             return None
@@ -883,7 +896,7 @@ def collect(sv):
 def specialised_tree(pat):
     """Parse tree of a pattern; for the special pseudo-class patterns the group `name` is replaced by the
     literal names the dispatcher routes to it (otherwise witnesses start with a name that never gets there)."""
-    tree = sp.parse(pat.regex.pattern, pat.regex.flags & ~re.U if False else pat.regex.flags)
+    tree = sp.parse(pat.regex.pattern, pat.regex.flags)
     flags = tree.state.flags
     if pat.names:
         gid = tree.state.groupdict.get('name')
@@ -960,12 +973,8 @@ def validate(A, pat, rng, count):
         s = word(A, w)
         m = rx.fullmatch(s)
         real = m is not None
-        if pat.names:
-            if real and m.group('name').lower() not in pat.names:
-                real = False
-            if not real and rx.fullmatch(s) is not None:
-                # the engine found a parse with another name; only a name-restricted engine could decide
-                continue
+        if pat.names and real and m.group('name').lower() not in pat.names:
+            continue        # parsed with a name that is routed elsewhere: outside the specialised automaton
         mine = A.accepts(w)
         n += 1
         if real != mine and (A.approx == 0 or real):
